@@ -155,9 +155,12 @@ Clear(out)          == Writes(out, ClearOut, ClearArr)
 Close(out)          == SameOutcome(out, CloseOut) /\ opened' = FALSE /\ UNCHANGED <<par, arr>>
 (* reopening is only defined for a closed handle: the contents are those before the close *)
 Reopen(out)         == ~opened /\ SameOutcome(out, ReopenOut) /\ opened' = TRUE /\ UNCHANGED <<par, arr>>
+\* life cycle: the array is released (its files are given up) and a new array of the same geometry is created under the
+\* same path - a new array is a list of zero items, whatever the old one held
+Recreate(out)       == SameOutcome(out, Ok(<<>>, 0)) /\ arr' = [p \in 1..N |-> Zero] /\ opened' = TRUE /\ UNCHANGED par
 
 OpNames == {"create", "get", "set", "getslice", "setslice", "del", "delslice", "clear", "iter",
-            "contains", "len", "close", "reopen"}
+            "contains", "len", "close", "reopen", "recreate"}
 
 (* dispatcher over operation records *)
 Apply(o, out) ==
@@ -174,6 +177,7 @@ Apply(o, out) ==
       [] o.op = "len"      -> LenOp(out)
       [] o.op = "close"    -> Close(out)
       [] o.op = "reopen"   -> Reopen(out)
+      [] o.op = "recreate" -> Recreate(out)
       [] OTHER -> FALSE
 
 (* expected outcome / next list as values (used by generators and for clause naming) *)
@@ -191,16 +195,19 @@ ExpOut(o) ==
       [] o.op = "len"      -> LenOut
       [] o.op = "close"    -> CloseOut
       [] o.op = "reopen"   -> ReopenOut
+      [] o.op = "recreate" -> Ok(<<>>, 0)
 ExpArr(o) ==
     CASE o.op = "set"      -> SetArr(o.i, o.xs[1])
       [] o.op = "setslice" -> SetSliceArr(o.sl, o.xs)
       [] o.op = "del"      -> DelArr(o.i)
       [] o.op = "delslice" -> DelSliceArr(o.sl)
       [] o.op = "clear"    -> ClearArr
+      [] o.op = "recreate" -> [p \in 1..N |-> Zero]
       [] OTHER -> arr
 ExpOpened(o) ==
     CASE o.op = "close" -> FALSE
       [] o.op = "reopen" -> TRUE
+      [] o.op = "recreate" -> TRUE
       [] OTHER -> opened
 
 (* ---- the file system statement of the property ------------------------ *)
